@@ -16,10 +16,16 @@ import (
 // client-side decoders.
 type stdioPeer struct {
 	in     *io.PipeWriter
-	out    *bufio.Reader
+	outR   *io.PipeReader
+	lines  chan stdioLine // whole lines, in order, from one reader goroutine (so that a request can give up at its deadline)
 	cancel context.CancelFunc
 	next   int
 	done   chan struct{}
+}
+
+type stdioLine struct {
+	b   []byte
+	err error
 }
 
 type rpcError struct {
@@ -32,11 +38,25 @@ func newStdioPeer(s *mcp.StdioServer) *stdioPeer {
 	inR, inW := io.Pipe()
 	outR, outW := io.Pipe()
 	ctx, cancel := context.WithCancel(context.Background())
-	p := &stdioPeer{in: inW, out: bufio.NewReaderSize(outR, 1<<16), cancel: cancel, done: make(chan struct{})}
+	p := &stdioPeer{in: inW, outR: outR, lines: make(chan stdioLine, 64), cancel: cancel, done: make(chan struct{})}
 	go func() {
 		defer close(p.done)
 		mcp.VerifServeStdio(ctx, s, inR, outW)
 		outW.Close()
+	}()
+	go func() {
+		rd := bufio.NewReaderSize(outR, 1<<16)
+		for {
+			b, err := rd.ReadBytes('\n')
+			select {
+			case p.lines <- stdioLine{b, err}:
+			case <-ctx.Done():
+				return
+			}
+			if err != nil {
+				return
+			}
+		}
 	}()
 	return p
 }
@@ -44,23 +64,38 @@ func newStdioPeer(s *mcp.StdioServer) *stdioPeer {
 func (p *stdioPeer) close() {
 	p.in.Close()
 	p.cancel()
+	p.outR.Close() // a server loop blocked in a write ends too
 }
 
 // request: the raw `result` member, or the error object, of the answer line carrying our id.
-func (p *stdioPeer) request(method string, params any) (json.RawMessage, *rpcError, error) {
+func (p *stdioPeer) request(ctx context.Context, method string, params any) (json.RawMessage, *rpcError, error) {
 	p.next++
 	id := p.next
 	line, err := json.Marshal(map[string]any{"jsonrpc": "2.0", "id": id, "method": method, "params": params})
 	if err != nil {
 		return nil, nil, err
 	}
-	if _, err := p.in.Write(append(line, '\n')); err != nil {
-		return nil, nil, err
+	// the write is bounded too (a server loop that stopped reading blocks the pipe)
+	wdone := make(chan error, 1)
+	go func() { _, err := p.in.Write(append(line, '\n')); wdone <- err }()
+	select {
+	case err := <-wdone:
+		if err != nil {
+			return nil, nil, err
+		}
+	case <-ctx.Done():
+		return nil, nil, fmt.Errorf("stdio write: %w", ctx.Err())
 	}
 	for {
-		ans, err := p.out.ReadBytes('\n')
-		if err != nil {
-			return nil, nil, fmt.Errorf("stdio read: %w", err)
+		var ans []byte
+		select {
+		case l := <-p.lines:
+			if l.err != nil {
+				return nil, nil, fmt.Errorf("stdio read: %w", l.err)
+			}
+			ans = l.b
+		case <-ctx.Done():
+			return nil, nil, fmt.Errorf("stdio: no answer line carrying id %d: %w", id, ctx.Err())
 		}
 		var env struct {
 			ID     any             `json:"id"`
